@@ -63,6 +63,27 @@ def main():
     e = json.loads(ls[k]); e["update"]["policies"][0]["reject"] = False; e["state"] = None; del e["state"]; ls[k] = json.dumps(e)
     t3 = os.path.join(wd, "a-corrupt2.trace"); open(t3, "w").write("\n".join(ls) + "\n")
     good &= expect("agent/trailing-reject-removed-from-an-update", "AgentTrace", check_agent.TRACE_CFG, t3, "C02", "FailOpenPolicy")
+    # ---- Agent (C16): two managed statements with one name - the run is expected to refuse
+    sc = agentgen.dupname_scenarios("C16")
+    sp = os.path.join(wd, "dup.ndjson"); open(sp, "w").write(json.dumps(sc[0]) + "\n")
+    t = os.path.join(wd, "dup.trace"); run_harness("agentrun", ["agent", sp, os.path.join(REPO_BIN, "bgpfu-junos-agent"), 1], t)
+    good &= expect("agent/two-statements-one-name recorded", "AgentTrace", check_agent.TRACE_CFG, t, "C16", None)
+    ls = lines(t); k = next(i for i, l in enumerate(ls) if '"ev":"exit"' in l)
+    e = json.loads(ls[k]); e["code"] = 0; ls[k] = json.dumps(e)
+    t2 = os.path.join(wd, "dup-corrupt.trace"); open(t2, "w").write("\n".join(ls) + "\n")
+    good &= expect("agent/two-statements-one-name exit-status-changed", "AgentTrace", check_agent.TRACE_CFG, t2, "C16", "RunSucceededAlthoughTwoManagedStatementsShareAName")
+    # ---- Daemon: SIGHUP while a run is in progress - the run it asks for is the next line of the timeline
+    cp = os.path.join(wd, "d2.ndjson")
+    open(cp, "w").write(json.dumps({"case": "d1", "period": 300, "jobs": [{"ok": True, "dur": 5}, {"ok": True, "dur": 5}, {"ok": True, "dur": 5}],
+                                    "signals": [{"after": 1, "delay": 1, "sig": "hup", "during": True}], "horizon": 2000}) + "\n")
+    t = os.path.join(wd, "d2.trace"); run_harness("daemon", ["run", cp, 1], t)
+    good &= expect("daemon/sighup-during-a-run recorded", "DaemonTrace", check_daemon.TRACE_CFG, t, "C19", None)
+    ls = lines(t); ks = next(i for i, l in enumerate(ls) if '"ev":"signal"' in l)
+    k = next(i for i, l in enumerate(ls) if i > ks and '"ev":"start"' in l)
+    e = json.loads(ls[k]); e["t"] += 300; ls[k] = json.dumps(e)
+    # (the runs behind it move as well: only the first judgement matters here)
+    t2 = os.path.join(wd, "d2-corrupt.trace"); open(t2, "w").write("\n".join(ls[:k + 1]) + "\n")
+    good &= expect("daemon/run-after-sighup-delayed", "DaemonTrace", check_daemon.TRACE_CFG, t2, "C19", "SighupDidNotTriggerImmediateRun")
     # ---- Rpsl (C17)
     b, _ = check_rpsl.tlc_blocks()
     import random
